@@ -1,4 +1,69 @@
+"""C08 = the world engine (record mirrors the MLS state after every call, routing by the id in force) + the wrap engine
+(several groups per client) + the invitation stream (the record an invitation / its acceptance leaves must mirror the MLS
+state as soon as the group is Active)."""
 from . import check_world, check_wrap
+from . import common as C
 PROP = "C08"
+
+def invitations_part(ob, facts, failures, coverage, tier, seed):
+    """the invite engine's histories (C16's stream: process / accept / decline of fresh, replayed, forged and second invitations,
+    eviction + re-invitation, the rejoin story) judged by C08's first sentence alone: whenever a group is Active for a client
+    after a call, the stored record's epoch is the MLS group's epoch (the view of that engine shows both)."""
+    from . import inviteeng as I
+    import os, re
+    if not os.path.exists(C.DRV):
+        return []
+    cases = I.load_corpus() + I.generate(seed, 250 if tier == "quick" else 3000)
+    I.run(cases)
+    checked = bad = 0
+    for c in cases:
+        wg, first_ok, writer = {}, set(), {}      # w -> group; (client, w) stored; (client, g) -> the invitation whose process_welcome wrote the record last (None: somebody else did since)
+        for k, (op, out) in enumerate(zip(c["ops"], c["impl"])):
+            t = op.split()
+            res, view = I.split(out)
+            if t[0] in ("group", "invite", "forge") and res.startswith("ok"):
+                g = int(I.kv(res, "g")) if t[0] == "group" else int(t[2])
+                for w in (I.kv(res, "w") or "-").split(","):
+                    if w not in ("-", ""):
+                        wg[int(w)] = g
+            if len(t) < 2 or not t[1].isdigit():
+                continue
+            j = int(t[1])
+            hit = None
+            for part in view.split():
+                m = re.match(r"G(\d+):a:E(\d+):T[^:]*:ME(\d+|-):", part)
+                if m:
+                    checked += 1
+                    if m.group(3) != m.group(2) and hit is None:
+                        hit = m
+            if hit is not None:
+                bad += 1
+                g = int(hit.group(1))
+                # listed mechanism (C16 / C08): accept_welcome trusts the record it finds.  It applies when that record was NOT
+                # last written by the accepted invitation's own process_welcome (another invitation was stored since, or a
+                # commit was processed for the group in between).  A stale record right after process_welcome(w); accept(w)
+                # — nobody else wrote in between — is a different defect.
+                known = t[0] == "accept" and res == "ok" and wg.get(int(t[2])) == g and writer.get((j, g), "none") != int(t[2])
+                sig = "accept-record-of-other-invitation" if known else "record-not-synced:invitation"
+                if sum(1 for f in failures if f["signature"] == sig) < 3:
+                    failures.append({"kind": "oracle", "signature": sig,
+                                     "what": f"{c['id']} step {k} `{op}`: group {g} is Active with record epoch {hit.group(2)} while its MLS state is at epoch {hit.group(3)}",
+                                     "replay_body": I.case_text(c, k, "Active group whose stored record does not mirror the MLS state"), "case": c, "step": k})
+                break
+            # who wrote the record of which group: a first-time (stored) invitation; anything else this client does to the group
+            if t[0] == "process" and res.startswith("ok") and int(t[2]) in wg and (j, int(t[2])) not in first_ok:
+                first_ok.add((j, int(t[2]))); writer[(j, wg[int(t[2])])] = int(t[2])
+            elif t[0] == "deliver":
+                for key in [x for x in writer if x[0] == j]:
+                    writer[key] = None
+            elif t[0] in ("accept", "decline") and int(t[2]) in wg and writer.get((j, wg[int(t[2])])) != int(t[2]):
+                writer[(j, wg[int(t[2])])] = None
+    ob.add("oracle:invitations:active-record-mirrors-mls", not any(f["signature"] == "record-not-synced:invitation" for f in failures), f"mismatches={bad}")
+    coverage["invitations"] = {"evaluations": len(cases), "distinct_nontrivial": len({tuple(c["ops"]) for c in cases if any(o.startswith("accept") for o in c["ops"])}),
+                               "rule": "the invite engine's histories (C16); non-trivial = a history with at least one accept; judged: Active ⇒ record epoch = MLS epoch after every call",
+                               "active_group_views_checked": checked, "mismatches": bad,
+                               "samples": [c["ops"][:30] for c in cases[:1]]}
+    return ["invitations part: the view of the invite engine compares the record's epoch with the MLS epoch (the other record fields are compared by the world engine's !sync)"]
+
 def run(tier, seed, t0, H):
-    return check_world.run(PROP, tier, seed, t0, H, second=check_wrap.extra)
+    return check_world.run(PROP, tier, seed, t0, H, second=check_wrap.extra, second_engine=invitations_part)
